@@ -6,11 +6,12 @@ import RV.Drive.Visibility
 import RV.Drive.Frames
 import RV.Drive.Time
 import RV.Drive.Events
+import RV.Drive.Importer
 namespace RV.Drive
 open RV
 
 def handlers : List (String → Option (P String)) :=
-  [RV.Drive.Decisions.handle, RV.Drive.Detectors.handle, RV.Drive.Mmae.handle, RV.Drive.Angles.handle, RV.Drive.Visibility.handle, RV.Drive.Frames.handle, RV.Drive.Time.handle, RV.Drive.Events.handle]
+  [RV.Drive.Decisions.handle, RV.Drive.Detectors.handle, RV.Drive.Mmae.handle, RV.Drive.Angles.handle, RV.Drive.Visibility.handle, RV.Drive.Frames.handle, RV.Drive.Time.handle, RV.Drive.Events.handle, RV.Drive.Importer.handle]
 
 def step (line : String) : String :=
   match tokens line with
